@@ -77,6 +77,9 @@ def parse_answers(text):
         if status == "NOMODEL":
             out.setdefault(cid, {})["nomodel"] = True
             continue
+        if status == "HYP":
+            out.setdefault(cid, {})["hyp"] = payload
+            continue
         if status == "INFO":
             out.setdefault(cid, {})["pn"] = tuple(int(x) for x in payload.split())
             continue
